@@ -256,7 +256,11 @@ def run(ctx):
                    "EPIPE / EOF behind it (requests that cross the array end once and several times); every call "
                    "that takes a length with n = used-1, used, used+1, 2*used+3, -1 (replay side: relative to the "
                    "replayable bytes) at every wrap position and fill level, two-buffer calls in both directions "
-                   "between the same buffers; all "
+                   "between the same buffers; OUT-PARAMETERS: *ndropped is poisoned (0x5a5a5a5a) before EVERY call and "
+                   "reported, incl. the zero-length calls and the calls refused with EINVAL (op `refused K`: NULL "
+                   "source, negative length, invalid descriptor, src == dst, write_line(NULL)) directly behind a "
+                   "write that dropped bytes, at every wrap position / fill / mode, and every writing call with a "
+                   "NULL out-parameter (`nullnd 1`); all "
                    "sequences of length <= 4 over a 9-op alphabet on a min=2,max=5 buffer per mode; every public "
                    "operation with boundary arguments (lines -1/0/1/many, lengths around every line length, "
                    "descriptor capacities 0.., short reads 0..request, EOF/EAGAIN, EINTR before every read/write) x "
